@@ -49,10 +49,13 @@ def r_op(o):
         return "ONewScope %s" % s
     if k == "derive":
         return "ODerive %s %s %s %s" % (s, n(o.get("acct", 0)), cbool(o.get("int", False)), n(o.get("n", 0)))
+    # symbolic id of an imported key as serialised (harness impSym): the same key imported
+    # compressed and uncompressed yields two different addresses, both accepted by the manager
     if k == "imppriv":
-        return "OImportPriv %s %s %s" % (s, n(o.get("id", 0)), cbool(o.get("comp", False)))
+        comp = o.get("comp", False)
+        return "OImportPriv %s %s %s" % (s, n(2 * o.get("id", 0) + (0 if comp else 1)), cbool(comp))
     if k == "imppub":
-        return "OImportPub %s %s" % (s, n(o.get("id", 0)))
+        return "OImportPub %s %s" % (s, n(2 * o.get("id", 0)))
     if k == "impscript":
         sk = o.get("skind")
         kind = "KP2SH" if sk == "p2sh" else "(%s %s)" % ("KWitness" if sk == "wsh" else "KTaproot", cbool(o.get("secret", False)))
